@@ -305,6 +305,11 @@ def c10_oracle(full, io, b):
             key[h] = tuple(p)
     for n, o in enumerate(full):
         f = o.split("\t")
+        if f[0] == "cmp" and io[n] in ("!eq-nonurl", "!order-nonurl"):
+            inp0 = f"{describe_handle(full, int(f[1]))}"
+            out.append({"what": f"{inp0}: " + ("compares equal (or not unequal) to a non-URL object (its string form, bytes, None, 0 or the tuple of its parts)" if io[n] == "!eq-nonurl"
+                                                else "an ordering comparison with a non-URL object did not raise TypeError"), "class": "eq-nonurl", "n": n, "input": inp0})
+            continue
         if f[0] != "cmp" or len(io[n]) != 6:
             continue
         a, c = int(f[1]), int(f[2])
@@ -719,7 +724,8 @@ def c13_oracle(full, io, b):
 def c13_streams(rng, tier, budget):
     st = Stream()
     bases = ["http://h", "http://h/", "http://h/a", "http://h/a/", "http://h/a/b.txt", "http://h/a%20b.tar.gz", "/a/b", "a/b", "a", "", "/", "http://h/a//b",
-             "http://h/%C3%A9.é", "http://h/a%2Fb.txt", "x:a/b", "http://h/.hidden", "http://h/a.", "http://h/a/b?q#f", "//h/a.b.c"]
+             "http://h/%C3%A9.é", "http://h/a%2Fb.txt", "x:a/b", "http://h/.hidden", "http://h/a.", "http://h/a/b?q#f", "//h/a.b.c",
+             "http://h/file.%C3%A4", "http://h/f.x%20y%20z", "http://h/r.%25", "/d/n.%E2%82%AC", "http://h/a/b/", "/a/b/"]
     segs = ["a", "b.txt", "a b", "é", "%20", "a%2Fb", "a/b", "a/", "", ".", "..", "a/../b", "x.y.z", "a:b", "a@b", "a+b", "a?b", "a#b"]
     n = int((25 if tier == "quick" else 300) * budget)
     for bs in bases + [urlgen.rand_url_string(rng) for _ in range(n)]:
